@@ -12,13 +12,13 @@ def run (args : List String) : String :=
   | none => "bad-op"
   | some ts =>
     let (t, d, _) := parseGold ts
-    s!"T={dumpTree t} D={diagsStr d} R=0 V=ok"
+    s!"T={dumpTree t} D={diagsStr d} R=0 V=ok O={outlineStr (Outline.outline t)}"
 
 def runNoMemo (args : List String) : String :=
   match parseToks args with
   | none => "bad-op"
   | some ts =>
     let (t, d) := parseGoldNoMemo ts
-    s!"T={dumpTree t} D={diagsStr d} R=0 V=ok"
+    s!"T={dumpTree t} D={diagsStr d} R=0 V=ok O={outlineStr (Outline.outline t)}"
 
 end Gold.Drive.ParseMode
